@@ -1,9 +1,558 @@
-/- C20 - model (stub: not built yet) -/
+/-
+C20 - model of plugin installation: `CLIManager.Install` / `Uninstall` / `List` / `Get`
+(plugin/manager.go, manager_unix.go), `CLIPlugin.GetMetadata` + `validate` (plugin/plugin.go),
+`file.CopyToDir` / `file.CopyDirToDir` (internal/file/file.go) and `semver.IsValid` /
+`semver.ComparePluginVersion` (internal/semver/semver.go over golang.org/x/mod/semver).
+
+Two kinds of cases go through the same `Input` / `Obs`:
+* `kind = "seq"`    - a sequence of install / uninstall operations on an initially empty
+                      plugin root; observed after every operation;
+* `kind = "semver"` - one pair of version strings: validity and comparison (validates the
+                      Lean semver model against the real `internal/semver`).
+-/
 import NotationModel.Basic
+import NotationModel.Generated.C20
 open Lean
 
 namespace NotationModel.C20
 
-def judge (_ : Json) : Except String Json := .error "C20: model not built yet"
+/-! ## 1. orderings -/
+
+def cmpNat (a b : Nat) : Ordering := if a < b then .lt else if a = b then .eq else .gt
+
+/-- Go compares strings bytewise; on UTF-8 that is code-point order -/
+def cmpChar (a b : Char) : Ordering := cmpNat a.toNat b.toNat
+
+/-- lexicographic order on lists; a proper prefix is smaller -/
+def lex {α : Type} (c : α → α → Ordering) : List α → List α → Ordering
+  | [], [] => .eq
+  | [], _ :: _ => .lt
+  | _ :: _, [] => .gt
+  | a :: as, b :: bs =>
+    match c a b with
+    | .eq => lex c as bs
+    | o => o
+
+def cmpText : Text → Text → Ordering := lex cmpChar
+
+/-! ## 2. semantic versions: what `semVerRegEx` accepts, how `x/mod/semver.Compare` orders -/
+
+def isDigit (c : Char) : Bool := decide ('0' ≤ c) && decide (c ≤ '9')
+def isIdentChar (c : Char) : Bool :=
+  isDigit c || (decide ('a' ≤ c) && decide (c ≤ 'z')) || (decide ('A' ≤ c) && decide (c ≤ 'Z')) || c == '-'
+
+/-- split at every separator; the result is never empty -/
+def splitOn (sep : Char) : List Char → List (List Char)
+  | [] => [[]]
+  | c :: r =>
+    if c == sep then [] :: splitOn sep r
+    else match splitOn sep r with
+      | h :: t => (c :: h) :: t
+      | [] => [[c]]
+
+/-- split at the first separator -/
+def splitFirst (sep : Char) : List Char → List Char × Option (List Char)
+  | [] => ([], none)
+  | c :: r =>
+    if c == sep then ([], some r)
+    else let p := splitFirst sep r; (c :: p.1, p.2)
+
+def digitsVal (s : List Char) : Nat := s.foldl (fun n c => 10 * n + (c.toNat - 48)) 0
+
+/-- `0|[1-9]\d*` -/
+def parseNum (s : Text) : Option Nat :=
+  if s.isEmpty || !s.all isDigit then none
+  else if s != ['0'] && s.head? == some '0' then none
+  else some (digitsVal s)
+
+/-- a pre-release identifier: numeric (compared as a number) or alphanumeric (compared as text) -/
+inductive Ident
+  | num (n : Nat)
+  | alnum (s : Text)
+  deriving DecidableEq, Repr
+
+/-- `0|[1-9]\d*|\d*[a-zA-Z-][0-9a-zA-Z-]*` -/
+def parseIdent (s : Text) : Option Ident :=
+  if s.isEmpty || !s.all isIdentChar then none
+  else if s.all isDigit then (parseNum s).map .num
+  else some (.alnum s)
+
+/-- `[0-9a-zA-Z-]+` -/
+def validBuildIdent (s : Text) : Bool := !s.isEmpty && s.all isIdentChar
+
+/-- a parsed version; build metadata is checked for well-formedness and then dropped -/
+structure Version where
+  major : Nat
+  minor : Nat
+  patch : Nat
+  pre : List Ident
+  deriving DecidableEq, Repr
+
+def parseVersion (s : Text) : Option Version :=
+  let p1 := splitFirst '+' s
+  let p2 := splitFirst '-' p1.1
+  let buildOk := match p1.2 with
+    | none => true
+    | some b => (splitOn '.' b).all validBuildIdent
+  if !buildOk then none
+  else match (splitOn '.' p2.1).mapM parseNum with
+    | some [ma, mi, pa] =>
+      match p2.2 with
+      | none => some ⟨ma, mi, pa, []⟩
+      | some p =>
+        match (splitOn '.' p).mapM parseIdent with
+        | some ids => some ⟨ma, mi, pa, ids⟩
+        | none => none
+    | _ => none
+
+/-- `semver.IsValid` -/
+def isValid (s : Text) : Bool := (parseVersion s).isSome
+
+def cmpIdent : Ident → Ident → Ordering
+  | .num a, .num b => cmpNat a b
+  | .num _, .alnum _ => .lt
+  | .alnum _, .num _ => .gt
+  | .alnum s, .alnum t => cmpText s t
+
+/-- `comparePrerelease`: no pre-release is higher than any pre-release -/
+def cmpPre : List Ident → List Ident → Ordering
+  | [], [] => .eq
+  | [], _ :: _ => .gt
+  | _ :: _, [] => .lt
+  | a :: as, b :: bs => lex cmpIdent (a :: as) (b :: bs)
+
+/-- first difference decides -/
+def andThen (o : Ordering) (p : Ordering) : Ordering :=
+  match o with
+  | .eq => p
+  | o => o
+
+/-- `x/mod/semver.Compare` on parsed versions -/
+def cmpVersion (v w : Version) : Ordering :=
+  andThen (cmpNat v.major w.major) (andThen (cmpNat v.minor w.minor)
+    (andThen (cmpNat v.patch w.patch) (cmpPre v.pre w.pre)))
+
+/-- `semver.ComparePluginVersion`: `none` = error (one of the two is not a valid version) -/
+def compareVersions (v w : Text) : Option Ordering :=
+  match parseVersion v, parseVersion w with
+  | some a, some b => some (cmpVersion a b)
+  | _, _ => none
+
+def ordInt : Ordering → Int
+  | .lt => -1
+  | .eq => 0
+  | .gt => 1
+
+/-! ## 3. files, sources, the plugin root -/
+
+/-- what a plugin script answers to `get-plugin-metadata` -/
+structure Script where
+  name : Text               -- the plugin name it reports
+  version : Text            -- the version it reports
+  valid : Bool              -- false: exits non-zero / prints no JSON / misses a required field
+  deriving DecidableEq, Repr, FromJson, ToJson
+
+/-- a regular file -/
+structure File where
+  name : Text
+  exec : Bool               -- owner-executable bit (0100)
+  cid : Nat                 -- identity of the content
+  script : Option Script    -- `none`: not a plugin script (cannot be executed)
+  deriving DecidableEq, Repr, FromJson, ToJson
+
+inductive EKind | file | dir | symlink
+  deriving DecidableEq, Repr, FromJson, ToJson
+
+/-- a top-level entry of a source directory (or the single source file) -/
+structure Entry where
+  kind : EKind
+  name : Text
+  exec : Bool
+  cid : Nat
+  script : Option Script
+  nested : List File        -- content of a sub-directory (never looked at by the repaired code)
+  deriving Repr, FromJson, ToJson
+
+def Entry.toFile (e : Entry) : File := ⟨e.name, e.exec, e.cid, e.script⟩
+
+inductive OpKind | install | uninstall
+  deriving DecidableEq, Repr, FromJson, ToJson
+
+structure Op where
+  kind : OpKind
+  name : Text               -- uninstall: the plugin name
+  overwrite : Bool          -- install: CLIInstallOptions.Overwrite
+  srcIsDir : Bool           -- install: PluginPath is a directory
+  srcBase : Text            -- install: base name of PluginPath
+  entries : List Entry      -- directory: its entries (any order); file: `[the file]`; `[]`: no such path
+  deriving Repr, FromJson, ToJson
+
+/-- an installed plugin: a directory of the plugin root and the regular files in it -/
+structure Plugin where
+  name : Text
+  files : List File
+  deriving DecidableEq, Repr
+
+abbrev State := List Plugin
+
+/-- insert into a list ordered by key (replacing an element of equal key) -/
+def putBy {α : Type} (key : α → Text) (x : α) : List α → List α
+  | [] => [x]
+  | y :: r =>
+    match cmpText (key x) (key y) with
+    | .lt => x :: y :: r
+    | .eq => x :: r
+    | .gt => y :: putBy key x r
+
+def delBy {α : Type} (key : α → Text) (k : Text) (l : List α) : List α := l.filter (fun y => key y != k)
+def findBy {α : Type} (key : α → Text) (k : Text) (l : List α) : Option α := l.find? (fun y => key y == k)
+/-- a directory listing: lexical order of names, one entry per name -/
+def sortBy {α : Type} (key : α → Text) (l : List α) : List α := l.foldr (putBy key) []
+
+def binaryPrefix : Text := Facts.binaryPrefix.toList
+
+/-- `binName` -/
+def binName (n : Text) : Text := binaryPrefix ++ n
+
+/-- `parsePluginName`: strings.CutPrefix with a non-empty remainder -/
+def parseName (fileName : Text) : Option Text :=
+  if binaryPrefix.isPrefixOf fileName then
+    let r := fileName.drop binaryPrefix.length
+    if r.isEmpty then none else some r
+  else none
+
+/-- `validatePluginName` -/
+def validName (n : Text) : Bool :=
+  !(n.isEmpty || n == ['.'] || n == ['.', '.'] || n.any (fun c => c == '/' || c == '\\' || c == '\x00'))
+
+/-- `CLIPlugin.GetMetadata` of the regular file `f` as plugin `n`: the version it reports.
+Needs the executable bit, a script that answers, complete metadata (`validate`), and the
+reported name equal to `n`. -/
+def metadata (n : Text) (f : File) : Option Text :=
+  if !f.exec then none
+  else match f.script with
+    | none => none
+    | some s =>
+      if s.valid && !s.version.isEmpty && !s.name.isEmpty && s.name == n then some s.version else none
+
+/-- `CLIManager.Get`: the file `<root>/<n>/notation-<n>` if it exists -/
+def getExe (st : State) (n : Text) : Option File :=
+  if !validName n then none
+  else match findBy Plugin.name n st with
+    | none => none
+    | some p => findBy File.name (binName n) p.files
+
+/-- what the installed plugin answers when fetched by the name of its directory -/
+def answer (p : Plugin) : Option Text :=
+  if !validName p.name then none
+  else (findBy File.name (binName p.name) p.files).bind (metadata p.name)
+
+/-! ## 4. locating the plugin in the source -/
+
+/-- regular top-level files of a source directory in walk (lexical) order -/
+def topFiles (es : List Entry) : List File :=
+  sortBy File.name ((es.filter (fun e => e.kind == .file)).map Entry.toFile)
+
+def isCand (f : File) : Bool := (parseName f.name).isSome
+
+/-- the variables of the walk callback in `parsePluginFromDir` -/
+structure Walk where
+  found : Option File := none      -- pluginExecutableFile (foundPluginExecutableFile)
+  cands : List File := []          -- filesWithValidNameFormat
+  deriving DecidableEq, Repr
+
+/-- the walk over the regular top-level files; `none` = "found more than one plugin
+executable files" -/
+def walk : List File → Walk → Option Walk
+  | [], w => some w
+  | f :: r, w =>
+    if !isCand f then walk r w
+    else
+      let w' : Walk := { w with cands := w.cands ++ [f] }
+      if !f.exec then walk r w'
+      else if w.found.isSome then none
+      else walk r { w' with found := some f }
+
+/-- what Install learned from the source -/
+structure Located where
+  exe : File               -- the executable (bit as after `setExecutable`)
+  name : Text              -- plugin name from the file name
+  chmod : Bool             -- the only, non-executable, candidate was made executable
+  deriving DecidableEq, Repr
+
+def mkLocated (f : File) (chmod : Bool) : Option Located :=
+  (parseName f.name).map fun n => ⟨{ f with exec := f.exec || chmod }, n, chmod⟩
+
+/-- `parsePluginFromDir` on a directory -/
+def locateDir (es : List Entry) : Option Located :=
+  match walk (topFiles es) {} with
+  | none => none
+  | some w =>
+    match w.found with
+    | some f => mkLocated f false
+    | none =>
+      match w.cands with
+      | [f] => mkLocated f true
+      | _ => none
+
+/-- the non-directory branch of Install -/
+def locateFile (es : List Entry) : Option Located :=
+  match es with
+  | [e] => if e.kind == .file && e.exec then mkLocated e.toFile false else none
+  | _ => none
+
+def locate (op : Op) : Option Located :=
+  if op.srcIsDir then locateDir op.entries else locateFile op.entries
+
+/-- files that `CopyToDir` / `CopyDirToDir` put into the plugin directory -/
+def copied (op : Op) (loc : Located) : List File :=
+  if op.srcIsDir then
+    (topFiles op.entries).map fun f =>
+      if loc.chmod && f.name == loc.exe.name then { f with exec := true } else f
+  else [loc.exe]
+
+/-- a usable source: the plugin it would install -/
+structure New where
+  name : Text
+  version : Text
+  files : List File
+  deriving DecidableEq, Repr
+
+/-- validatePluginName, NewCLIPlugin, GetMetadata of the new plugin -/
+def newOf (op : Op) (loc : Option Located) : Option New :=
+  match loc with
+  | none => none
+  | some l =>
+    if !validName l.name then none
+    else match metadata l.name l.exe with
+      | none => none
+      | some v => some ⟨l.name, v, copied op l⟩
+
+/-! ## 5. install / uninstall -/
+
+inductive Err | ok | downgrade | equalVersion | notExist | other
+  deriving DecidableEq, Repr, FromJson, ToJson
+
+/-- `(existing, new, error)` of Install (versions of the two metadata) -/
+structure Outcome where
+  err : Err
+  existing : Option Text
+  new : Option Text
+  deriving DecidableEq, Repr
+
+/-- the checks on the existing plugin's metadata `ex` (`none`: it does not answer):
+refusal, or the existing metadata to return -/
+def versionCheck (ex : Option Text) (overwrite : Bool) (vn : Text) : Except Err (Option Text) :=
+  match ex, overwrite with
+  | ex, true => .ok ex
+  | none, false => .error .other
+  | some vo, false =>
+    match compareVersions vn vo with
+    | none => .error .other
+    | some .lt => .error .downgrade
+    | some .eq => .error .equalVersion
+    | some .gt => .ok (some vo)
+
+/-- the existence / version checks of Install -/
+def versionRule (st : State) (overwrite : Bool) (nw : New) : Except Err (Option Text) :=
+  match getExe st nw.name with
+  | none => .ok none                                    -- os.ErrNotExist
+  | some f => versionCheck (metadata nw.name f) overwrite nw.version
+
+/-- clean-up (`Uninstall`) then copy -/
+def replace (st : State) (nw : New) : State :=
+  putBy Plugin.name ⟨nw.name, nw.files⟩ (delBy Plugin.name nw.name st)
+
+def install (st : State) (op : Op) : Outcome × State :=
+  match newOf op (locate op) with
+  | none => (⟨.other, none, none⟩, st)
+  | some nw =>
+    match versionRule st op.overwrite nw with
+    | .error e => (⟨e, none, none⟩, st)
+    | .ok ex => (⟨.ok, ex, some nw.version⟩, replace st nw)
+
+def uninstall (st : State) (n : Text) : Outcome × State :=
+  if !validName n then (⟨.other, none, none⟩, st)
+  else if (findBy Plugin.name n st).isSome then (⟨.ok, none, none⟩, delBy Plugin.name n st)
+  else (⟨.notExist, none, none⟩, st)
+
+def step (st : State) (op : Op) : Outcome × State :=
+  match op.kind with
+  | .install => install st op
+  | .uninstall => uninstall st op.name
+
+/-! ## 6. observation -/
+
+structure FileObs where
+  name : Text
+  cid : Nat
+  exec : Bool
+  deriving DecidableEq, Repr, FromJson, ToJson
+
+structure PluginObs where
+  name : Text
+  files : List FileObs         -- sorted by name
+  version : Option Text        -- Get + GetMetadata: the version the installed plugin reports
+  deriving DecidableEq, Repr, FromJson, ToJson
+
+structure StepObs where
+  err : Err
+  existing : Option Text
+  new : Option Text
+  root : List PluginObs        -- the plugin root after the operation, sorted by name
+  listed : List Text           -- CLIManager.List after the operation
+  deriving DecidableEq, Repr, FromJson, ToJson
+
+def fobs (f : File) : FileObs := ⟨f.name, f.cid, f.exec⟩
+def pobs (p : Plugin) : PluginObs := ⟨p.name, p.files.map fobs, answer p⟩
+def observe (st : State) : List PluginObs := st.map pobs
+
+def stepObs (st : State) (op : Op) : StepObs :=
+  let r := step st op
+  ⟨r.1.err, r.1.existing, r.1.new, observe r.2, (observe r.2).map (·.name)⟩
+
+def runOps : State → List Op → List StepObs
+  | _, [] => []
+  | st, op :: ops => stepObs st op :: runOps (step st op).2 ops
+
+structure Input where
+  kind : String
+  ops : List Op
+  v : Text
+  w : Text
+  deriving Repr, FromJson, ToJson
+
+structure Obs where
+  steps : List StepObs
+  validV : Bool
+  validW : Bool
+  cmp : Option Int
+  deriving DecidableEq, Repr, FromJson, ToJson
+
+def run (i : Input) : Obs :=
+  if i.kind == "semver" then
+    ⟨[], isValid i.v, isValid i.w, (compareVersions i.v i.w).map ordInt⟩
+  else ⟨runOps [] i.ops, false, false, none⟩
+
+/-! ## 7. the property over observables -/
+
+/-- the plugin a source would install, stated without the walk: the regular top-level files
+whose name is `notation-<name>`; the executable one if there is exactly one; the only one
+if none is executable. -/
+def specLocateDir (es : List Entry) : Option Located :=
+  let cands := (topFiles es).filter isCand
+  match cands.filter (·.exec) with
+  | [f] => mkLocated f false
+  | [] => (match cands with
+    | [f] => mkLocated f true
+    | _ => none)
+  | _ => none
+
+def specLocate (op : Op) : Option Located :=
+  if op.srcIsDir then specLocateDir op.entries else locateFile op.entries
+
+def specNew (op : Op) : Option New := newOf op (specLocate op)
+
+def lookupR (R : List PluginObs) (n : Text) : Option PluginObs := findBy PluginObs.name n R
+
+def newObs (nw : New) : PluginObs := ⟨nw.name, nw.files.map fobs, some nw.version⟩
+
+/-- `vn` is strictly higher than the version the installed plugin reports -/
+def higher (vn : Text) (p : PluginObs) : Bool :=
+  match p.version with
+  | none => false
+  | some vo => compareVersions vn vo == some .gt
+
+def relTo (o : Ordering) (vn : Text) (p : Option PluginObs) : Bool :=
+  match p with
+  | some ⟨_, _, some vo⟩ => compareVersions vn vo == some o
+  | _ => false
+
+/-- one operation: the root before it, the operation, what was observed -/
+abbrev Triple := List PluginObs × Op × StepObs
+
+def triples : List Op → List StepObs → List PluginObs → List Triple
+  | op :: ops, s :: steps, R => (R, op, s) :: triples ops steps s.root
+  | _, _, _ => []
+
+def isInstall (op : Op) : Bool := op.kind == .install
+
+def cRefusedNoop : Triple → Bool
+  | (R, _, s) => s.err == .ok || s.root == R
+
+def cInstallExact : Triple → Bool
+  | (R, op, s) =>
+    !(isInstall op && s.err == .ok) ||
+    match specNew op with
+    | none => false
+    | some nw =>
+      s.root == putBy PluginObs.name (newObs nw) (delBy PluginObs.name nw.name R) &&
+      s.new == some nw.version &&
+      s.existing == (lookupR R nw.name).bind (·.version)
+
+def cReplaceOnlyIf : Triple → Bool
+  | (R, op, s) =>
+    !(isInstall op && s.err == .ok) ||
+    match specNew op with
+    | none => false
+    | some nw =>
+      match lookupR R nw.name with
+      | none => true
+      | some p => op.overwrite || higher nw.version p
+
+def cInstallWhenAllowed : Triple → Bool
+  | (R, op, s) =>
+    !isInstall op ||
+    match specNew op with
+    | none => s.err != .ok
+    | some nw =>
+      match lookupR R nw.name with
+      | none => s.err == .ok
+      | some p => !(op.overwrite || higher nw.version p) || s.err == .ok
+
+def cRefusalClass : Triple → Bool
+  | (R, op, s) =>
+    (s.err != .downgrade ||
+      (isInstall op && !op.overwrite && match specNew op with
+        | none => false
+        | some nw => relTo .lt nw.version (lookupR R nw.name))) &&
+    (s.err != .equalVersion ||
+      (isInstall op && !op.overwrite && match specNew op with
+        | none => false
+        | some nw => relTo .eq nw.version (lookupR R nw.name)))
+
+def cListed : Triple → Bool
+  | (_, _, s) => s.listed == s.root.map (·.name)
+
+def cAnswers : Triple → Bool
+  | (_, _, s) => s.root.all (·.version.isSome)
+
+def cUninstall : Triple → Bool
+  | (R, op, s) =>
+    isInstall op ||
+    if validName op.name && (lookupR R op.name).isSome then
+      s.err == .ok && s.root == delBy PluginObs.name op.name R
+    else s.err != .ok && (!validName op.name || s.err == .notExist)
+
+def clauses (i : Input) (o : Obs) : Clauses :=
+  if i.kind == "semver" then
+    [ ("valid_is_the_semver_grammar", o.validV == isValid i.v && o.validW == isValid i.w),
+      ("compare_defined_iff_both_valid", o.cmp.isSome == (o.validV && o.validW)),
+      ("compare_is_semver_precedence", o.cmp == (compareVersions i.v i.w).map ordInt) ]
+  else
+    let ts := triples i.ops o.steps []
+    [ ("one_observation_per_operation", o.steps.length == i.ops.length),
+      ("refused_operation_leaves_root_unchanged", ts.all cRefusedNoop),
+      ("installed_exactly_toplevel_files_and_new_metadata", ts.all cInstallExact),
+      ("replaced_only_if_higher_or_overwrite", ts.all cReplaceOnlyIf),
+      ("installs_when_the_rules_allow", ts.all cInstallWhenAllowed),
+      ("refusal_class_matches_version_relation", ts.all cRefusalClass),
+      ("listed_is_the_root_listing", ts.all cListed),
+      ("every_installed_plugin_answers", ts.all cAnswers),
+      ("uninstall_removes_exactly_the_named_plugin", ts.all cUninstall) ]
+
+def Holds (i : Input) (o : Obs) : Bool := (clauses i o).holds
+
+def judge := judgeWith run clauses
 
 end NotationModel.C20
